@@ -977,6 +977,16 @@ class C12(Check):
         for hl in range(5, 16):
             cases.append({"ops": [po(mk(ip_packet(ips, ipd, 17, udp_seg(ips, ipd, 1000, 2000, b"abc"), options=bytes([1]) * (4 * (hl - 5)))), sel_acts)], "wf": True, "canon": True})
             cases.append({"ops": [po(mk(ip_packet(ips, ipd, 6, tcp_seg(ips, ipd, 1000, 80, 1, 2, 0, 0x18, 100, 0, bytes([1]) * (4 * (hl - 5)), b"hello"))), sel_acts)], "wf": True, "canon": True})
+        # (s) a flow_mod whose actions include a type without handler (C13-4: refused with BAD_ACTION/BAD_TYPE and not installed; without the
+        #     pre-check: installed, processing stops at that action) — first / middle / last, then traffic, then a good entry behind it
+        ven = {"a": "vendor", "v": 7}
+        for acts in ([ven, out1(2)], [out1(2), ven, out1(3)], [{"a": "set_vlan_vid", "v": 3}, out1(P_FLOOD), ven], [ven]):
+            cases.append({"ops": [{"op": "flow", "in_port": 1, "acts": acts}, {"op": "rx", "port": 1, "data": tcp},
+                                  {"op": "pktout", "in_port": 1, "data": udp, "acts": [out1(P_TABLE), out1(3)]},
+                                  {"op": "flow", "in_port": None, "acts": [out1(P_FLOOD)]}, {"op": "rx", "port": 1, "data": tcp}, {"op": "rx", "port": 2, "data": udp}, stats],
+                          "canon": True})
+            cases.append({"ops": [{"op": "batch", "ops": [{"op": "flow", "in_port": 2, "acts": acts}, po(tcp, [out1(P_TABLE)], 2), {"op": "flow", "in_port": 2, "acts": [out1(3)]},
+                                                          po(tcp, [out1(P_TABLE)], 2)]}, stats], "canon": True})
         # (f) the witnesses of Properties/C12.lean (`enqueue_d7_defect`, `table_recount_d8_defect`, `vlan_pcp_c121_defect`) replayed on
         #     the implementation: four ports, port 2 NO_FLOOD, port 3 NO_FWD, one entry for in_port 3, a 16-byte frame
         small = "66778899aabb00112233445588b50102"
